@@ -1,4 +1,5 @@
 import CCT.Model.Signing
+import CCT.Model.Keys
 import CCT.Ref.Crypto
 import Std.Data.HashMap
 /-!
@@ -36,7 +37,7 @@ def parseHexBytes (s : String) : Option (List Nat) :=
       let h ← hexNib a; let l ← hexNib b; let t ← go r
       pure ((h * 16 + l) :: t)
     | _ => none
-  go s.toList
+  go (match s.toList with | 'x' :: r => r | l => l)     -- an optional leading 'x' lets an empty byte string be a token
 
 mutual
 partial def parseJ : List Tok → Option (J × List Tok)
@@ -118,6 +119,21 @@ partial def showJ : J → String
   | .arr xs => "[ " ++ String.join (xs.map fun x => showJ x ++ " ") ++ "]"
   | .obj kvs => "{ " ++ String.join (kvs.map fun (k, v) => "s" ++ codesStr k ++ " " ++ showJ v ++ " ") ++ "}"
 end
+
+def showVal : PyVal → String
+  | .j v => showJ v
+  | .tuple xs => "( " ++ String.join (xs.map fun x => showJ x ++ " ") ++ ")"
+  | .bytes b => "b" ++ hexStr b
+  | .bytearray b => "B" ++ hexStr b
+  | .pubkey b => "K" ++ hexStr b
+  | .privkey b => "P" ++ hexStr b
+  | .timedelta z => "D" ++ toString z
+  | .opaque n => "O" ++ toString n
+
+def showResVal (r : Res PyVal) : String :=
+  match r with
+  | .ok v => "V " ++ showVal v
+  | .error e => "E " ++ e.name
 
 def showRes (r : Res Unit) : String :=
   match r with
@@ -342,6 +358,29 @@ def handle (memo : Memo) (line : String) : Memo × String :=
            | .error e => (memo, "E " ++ e.name))
         | some (_, []) => (memo, "E ArgError")
         | _ => (memo, "X bad-args")
+      | _ => (memo, "X bad-args")
+    | "key" =>
+      match args with
+      | fn :: rest =>
+        match parseVal rest with
+        | some (a, r2) =>
+          let one (f : PyVal → String) : Memo × String := if r2.isEmpty then (memo, f a) else (memo, "X bad-args")
+          match fn with
+          | "priv_from_bytes" => one fun a => showResVal (privFromBytes a)
+          | "pub_from_bytes" => one fun a => showResVal (pubFromBytes a)
+          | "priv_from_hex" => one fun a => showResVal (privFromHex a)
+          | "pub_from_hex" => one fun a => showResVal (pubFromHex a)
+          | "priv_to_bytes" => one fun a => showResVal ((privToBytes a).map PyVal.bytes)
+          | "pub_to_bytes" => one fun a => showResVal ((pubToBytes a).map PyVal.bytes)
+          | "priv_to_hex" => one fun a => showResVal ((privToHex a).map fun h => PyVal.j (.str h))
+          | "pub_to_hex" => one fun a => showResVal ((pubToHex a).map fun h => PyVal.j (.str h))
+          | "public_of" => one fun a => showResVal (publicOf Ref.refCrypto a)
+          | "priv_equiv" | "pub_equiv" =>
+            match parseVal r2 with
+            | some (b, []) => (memo, showResBool (if fn == "priv_equiv" then privIsEquivalent a b else pubIsEquivalent a b))
+            | _ => (memo, "X bad-args")
+          | _ => (memo, "X unknown-key-fn")
+        | none => (memo, "X bad-args")
       | _ => (memo, "X bad-args")
     | "prim" =>
       match args with
